@@ -5,21 +5,7 @@
 //  `cargo kani playback -Z concrete-playback` in /repo: the real code, compiled natively.)
 // vk-harness-file: /verif/harness/server_pubd_rrdp.rs
 use super::*;
-/// Test generated for harness `server::pubd::rrdp::verif_kani::c11k_retained_never_exceeds_maximum` 
-///
-/// Check for `assertion`: "assertion failed: keep + 1 <= cfg.rrdp_delta_files_max_nr"
-///
-/// # Warning
-///
-/// Concrete playback tests combined with stubs or contracts is highly
-/// experimental, and subject to change.
-///
-/// The original harness has stubs which are not applied to this test.
-/// This may cause a mismatch of non-deterministic values if the stub
-/// creates any non-deterministic value.
-/// The execution path may also differ, which can be used to refine the stub
-/// logic.
-
+/// assertion: assertion failed: keep + 1 <= cfg.rrdp_delta_files_max_nr
 #[test]
 fn kani_concrete_playback_c11k_retained_never_exceeds_maximum_9628070501113111147() {
     let concrete_vals: Vec<Vec<u8>> = vec![
